@@ -38,7 +38,11 @@ def _build(level, parent):
         for k in spec["own"]:
             p[KEYNAMES[k]] = None if k in spec.get("nul", ()) else value(k, level)
     else:
-        p = InMemoryPartition({KEYNAMES[k]: (None if k in spec.get("nul", ()) else value(k, level)) for k in spec["own"]})
+        own = {KEYNAMES[k]: (None if k in spec.get("nul", ()) else value(k, level)) for k in spec["own"]}
+        if spec.get("dd"):          # built over a defaultdict, the way the module's own docstring example builds one
+            import collections
+            own = collections.defaultdict(list, own)
+        p = InMemoryPartition(own)
     if parent is not None:
         p._merge_parent = parent
     return p
